@@ -287,6 +287,15 @@ class Sim:
                             'error', 'thread {} did not unwind'.format(t.name))
         finally:
             _current = None
+        drv = self._driver
+        if self.outcome is not None and self.outcome.status == 'ok' and \
+                drv is not None and drv.exc is not None:
+            # an exception that ends the driver thread is a harness failure,
+            # never a silently successful run
+            import traceback
+            self.outcome = Outcome('error', 'driver raised {}: {}\n{}'.format(
+                type(drv.exc).__name__, drv.exc,
+                ''.join(traceback.format_tb(drv.exc.__traceback__)[-4:])))
         return self.outcome
 
     def _finish(self, status, detail=''):
